@@ -674,6 +674,15 @@ def main(argv):
         except Exception as e:
             log('setup: extractor failed: %s' % e)
             return 1
+        # pre-build the Kani workspace and the concrete-search binary (both cache under /verif/build), so that the first check is not slow
+        for what, cmd in (('kani', [sys.executable, os.path.join(VERIF, 'kani', 'run_kani.py'), '--build-only']),
+                          ('rt', [sys.executable, os.path.join(VERIF, 'rt', 'run_rt.py'), 'list', '--quiet'])):
+            if os.path.exists(cmd[1]):
+                try:
+                    pr = subprocess.run(cmd, capture_output=True, text=True, timeout=3600, env=dict(os.environ, VERIF_REPO=REPO))
+                    log('setup: %s pre-build rc=%s' % (what, pr.returncode))
+                except Exception as e:
+                    log('setup: %s pre-build failed: %s (checks will build on demand)' % (what, e))
         log('setup ok')
         return 0
     if argv[0] == '--manifest':
